@@ -203,3 +203,14 @@ pub fn fix_r25_found_not_written(mut array: ArrayViewMut1<'_, i32>, indexes: &mu
     bigger_indexes.iter_mut().for_each(|x| *x -= k + 1);
     fix_r25_found_not_written(array.slice_axis_mut(Axis(0), ndarray::Slice::from(k + 1..)), bigger_indexes, bigger_values);
 }
+
+/// R26: an "interpolation" that overshoots the higher neighbour (lower + 2·(higher − lower)).
+pub fn fix_r26_overshoot<T>(lower: Option<T>, higher: Option<T>, _q: f64, _len: usize) -> T
+where
+    T: num_traits::NumOps + Clone + num_traits::FromPrimitive,
+{
+    let two = T::from_u8(2).unwrap();
+    let lower = lower.unwrap();
+    let higher = higher.unwrap();
+    lower.clone() + (higher.clone() - lower.clone()) * two
+}
